@@ -407,10 +407,12 @@ func panicClass(pv any) string {
 	case strings.Contains(s, "stack overflow"):
 		return "stack-overflow"
 	}
-	if len(s) > 60 {
-		s = s[:60]
+	// explicit panic(...) with a message: keep its leading words only (paths, names and numbers vary)
+	words := strings.Fields(s)
+	if len(words) > 5 {
+		words = words[:5]
 	}
-	return "explicit:" + s
+	return "explicit:" + strings.Join(words, " ")
 }
 
 func sortedKeys[V any](m map[string]V) []string {
